@@ -85,7 +85,7 @@ def exec_udp(job):
     after = dev.get_mem()
     shape = [[len(e) for e in t] for t in after] == [[len(e) for e in t] for t in mem0]
     nbytes = sum(len(g["b"]) for g in grams)
-    sc = {"cfg": cfg, "pers": {"k": "any"}, "mem0": mem0, "grams": [{k: v for k, v in g.items() if k != "b"} for g in grams]}
+    sc = {"cfg": cfg, "pers": {"k": "any"}, "mem0": mem0, "grams": [{k: v for k, v in g.items() if k != "b" or g["kind"] == "bad"} for g in grams]}
     return {"sc": sc, "ev": evs, "finished": finished and wall < 2.0 + 0.01 * nbytes, "shape": shape, "label": label,
             "octets": [g["b"] for g in grams], "wall": round(wall, 3)}
 
@@ -241,7 +241,7 @@ def main(ctx):
     fd, path = tempfile.mkstemp(prefix="hostile_", suffix=".ndjson")
     with os.fdopen(fd, "w") as f:
         for ln in lines:
-            f.write(json.dumps({k: ln[k] for k in ("ev", "before", "after", "others", "finished", "wexp")}, separators=(",", ":")) + "\n")
+            f.write(json.dumps(dict({k: ln[k] for k in ("ev", "before", "after", "others", "finished", "wexp")}, octets=[o for c in ln["chunks"] for o in c]), separators=(",", ":")) + "\n")
     try:
         r3 = tlc.run("HostileTrace", "HostileTrace.cfg", env={"TRACE_FILE": path}, timeout=2400)
     finally:
